@@ -22,11 +22,22 @@ def find_dispatch(F):
             arms = {}
             for a in n["arms"]:
                 for p in (a["pat"]["pats"] if a["pat"].get("k") == "Or" else [a["pat"]]):
+                    # `Event::X`, or `Ok(Event::X)` / `Some(Event::X)` when the conversion result is matched directly
+                    while p.get("k") == "Ref":
+                        p = p["pat"]
+                    if p.get("k") == "TupleStruct" and (p.get("path") or "").endswith(("::Ok", "::Some")) and len(p.get("pats", [])) == 1:
+                        p = p["pats"][0]
+                    elif p.get("k") == "TupleStruct" and (p.get("path") or "").endswith("::Err"):
+                        arms.setdefault("_", a)
+                        continue
                     if p.get("k") == "Lit" and p["e"].get("k") == "Path":
                         arms[p["e"]["path"].split("::")[-1]] = a
+                    elif p.get("k") == "Path" and "Event::" in (p.get("path") or ""):
+                        arms[p["path"].split("::")[-1]] = a
                     elif p.get("k") in ("Wild", "Bind"):
                         arms["_"] = a
-            return b, n, arms
+            if len([k for k in arms if k != "_"]) >= 3:
+                return b, n, arms
     return b, None, {}
 
 
